@@ -468,17 +468,19 @@ func proveWithCallers(p *Prog, fn *ssa.Function, E *Lin, facts []Fact, depth int
 				if !okAll {
 					return false
 				}
-				cf := append(env.FactsAt(b), env.Extra...)
-				cf = append(cf, hyp...)
-				for _, l := range []*Lin{sub} {
-					for k := range l.T {
-						if strings.HasSuffix(k, ".tagSize") {
-							cf = append(cf, Fact{E: L(k).Sub(linConst(12))}, Fact{E: linConst(16).Sub(L(k))})
+				for _, alt := range env.FactAlternatives(b, 0) {
+					cf := append(append([]Fact{}, alt...), env.Extra...)
+					cf = append(cf, hyp...)
+					for _, l := range []*Lin{sub} {
+						for k := range l.T {
+							if strings.HasSuffix(k, ".tagSize") {
+								cf = append(cf, Fact{E: L(k).Sub(linConst(12))}, Fact{E: linConst(16).Sub(L(k))})
+							}
 						}
 					}
-				}
-				if !proveWithCallers(p, caller, sub, cf, depth+1) {
-					return false
+					if !proveWithCallers(p, caller, sub, cf, depth+1) {
+						return false
+					}
 				}
 			}
 		}
